@@ -1,12 +1,12 @@
 #!/bin/bash
-# par_seeded.sh [lanes=4] : runs every confirmed seeded change against the quick check of its property, in
-# <lanes> isolated lanes (tools/lane.sh) in parallel; merges the outcomes into seeded/results.json and
-# regenerates seeded/RESULTS.md. /repo and /verif themselves are not touched while it runs.
+# par_seeded.sh [lanes=4] [name ...] : runs every confirmed seeded change (or only the named ones) against the quick
+# check of its property, in <lanes> isolated lanes (tools/lane.sh) in parallel; merges the outcomes into
+# seeded/results.json and regenerates seeded/RESULTS.md. /repo and /verif themselves are not touched while it runs.
 set -u
-n=${1:-4}
+n=${1:-4}; shift
 cd /verif
-ls -d seeded/C*-m* | xargs -n1 basename > /tmp/lanes_seeded_all.txt
-rm -f /tmp/lanes_seeded_part.*; split -n r/$n -d /tmp/lanes_seeded_all.txt /tmp/lanes_seeded_part.
+if [ $# -gt 0 ]; then printf "%s\n" "$@" > /tmp/lanes_seeded_all.txt; else ls -d seeded/C*-m* | xargs -n1 basename > /tmp/lanes_seeded_all.txt; fi
+rm -f /tmp/lanes_seeded_part.* /tmp/lanes_seeded_out.*; split -n r/$n -d /tmp/lanes_seeded_all.txt /tmp/lanes_seeded_part.
 pids=""
 for j in $(seq 0 $((n-1))); do
   part=/tmp/lanes_seeded_part.0$j
@@ -21,6 +21,10 @@ cat /tmp/lanes_seeded_out.* | sort > /tmp/lanes_seeded_out.all
 python3 - <<'PY'
 import json,re
 res={}
+try:
+    res=json.load(open('/verif/seeded/results.json'))
+except Exception:
+    pass
 for l in open('/tmp/lanes_seeded_out.all'):
     m=re.match(r'SEEDED (\S+) check=(\S+) rc=(\d+) ?(.*)',l.strip())
     if m:
